@@ -19,8 +19,9 @@ ASSUMPTIONS = [
     "stubs are the renderings of monkeytype.stubs.build_module_stubs_from_traces (from-imports only, classes at top level)",
 ]
 PARTIAL = [
-    "apply_idempotent is proved for the annotation pass under a fixed stub environment (walk_idempotent) and, for the whole "
-    "of apply, only tested (second application compared textually on every case)",
+    "idempotence of the whole of apply is proved under the boolean side conditions idem_side and reimport_safe "
+    "(apply_idempotent_partial2, _closed); the unconditional C15_full is refuted in Refuted/C15.v with two re-application "
+    "defects of libcst; on every case the second application is also compared textually",
     "libcst itself and concrete syntax are modelled / tested, not verified",
 ]
 
